@@ -80,20 +80,34 @@ def validate_wrapper(rep: Report) -> None:
     calls = res.printed("VCALL")
     if len(calls) < 100:
         raise common.MachineryError(f"Validate_MC emitted only {len(calls)} calls")
+    r2 = common.run_tlc("Validate_MC", "Validate_MC_leg2.cfg", timeout=300, tag="valleg2")
+    common.tlc_must_fail(r2, "Validate Legacy=falsy_is_off", "RejectExactly")
+    rep.extra.setdefault("l2_refuted_deviations", []).append({"legacy": "falsy_is_off", "violated": r2.violated_invariant})
+    # "falsy": a non-default value that is None / False / 0 / empty -- every such Python value that differs from the default
+    FALSY: List[Any] = [None, False, 0.0, ""]
+
+    def bind(name: str, v: str, fv: Any) -> Any:
+        return defaults[name] if v == "default" else others[name] if v == "other" else fv
+
     for c in calls:
         uns = list(c["unsupported"])
         f = _validate(target, uns)
-        pos = [(defaults if v == "default" else others)[names[i]] for i, v in enumerate(c["pos"])]
-        kw = {k: (defaults if v == "default" else others)[k] for k, v in (c["kw"].items() if isinstance(c["kw"], dict) else [])}
-        try:
-            f(*pos, **kw)
-            raised = False
-        except ValueError:
-            raised = True
-        rep.case(("vcall", json.dumps(c, sort_keys=True)), nontrivial=bool(uns))
-        if raised != c["reject"]:
-            rep.violation(f"_validate(unsupported={uns}) called with positional {c['pos']} keywords {c['kw']}: raised={raised}, spec MustReject={c['reject']}",
-                          {"vcall": c}, key=f"validate_wrapper:{'missed' if c['reject'] else 'spurious'}")
+        kwi = list(c["kw"].items()) if isinstance(c["kw"], dict) else []
+        has_falsy = "falsy" in list(c["pos"]) + [v for _, v in kwi]
+        for fv in (FALSY if has_falsy else [None]):
+            if has_falsy and any(v == "falsy" and fv == defaults[n] for n, v in list(zip(names, c["pos"])) + kwi):
+                continue  # e.g. 0.0 == False: that IS the default of `flag`
+            pos = [bind(names[i], v, fv) for i, v in enumerate(c["pos"])]
+            kw = {k: bind(k, v, fv) for k, v in kwi}
+            try:
+                f(*pos, **kw)
+                raised = False
+            except ValueError:
+                raised = True
+            rep.case(("vcall", json.dumps(c, sort_keys=True), repr(fv) if has_falsy else ""), nontrivial=bool(uns))
+            if raised != c["reject"]:
+                rep.violation(f"_validate(unsupported={uns}) called with positional {c['pos']} keywords {c['kw']} (falsy value {fv!r}): raised={raised}, spec MustReject={c['reject']}",
+                              {"vcall": c, "falsy": repr(fv)}, key=f"validate_wrapper:{'missed' if c['reject'] else 'spurious'}")
     x = torch.randn(3, 4)
     positional = [
         ("silu inplace positional", lambda: U.silu(x, 1.0, "to_output_scale", True)),
@@ -103,6 +117,10 @@ def validate_wrapper(rep: Report) -> None:
         ("embedding sparse positional", lambda: U.embedding(torch.tensor([0, 1]), torch.randn(3, 2), None, None, 2.0, False, True)),
         ("cross_entropy weight positional", lambda: U.cross_entropy(torch.randn(2, 3), torch.tensor([0, 1]), torch.ones(3))),
         ("mse_loss size_average positional", lambda: U.mse_loss(x, x, True)),
+        ("mse_loss size_average=False positional (default None: False asks for a sum)", lambda: U.mse_loss(x, x, False)),
+        ("mse_loss reduce=False positional", lambda: U.mse_loss(x, x, None, False)),
+        ("cross_entropy size_average=False positional", lambda: U.cross_entropy(torch.randn(2, 3), torch.tensor([0, 1]), None, False)),
+        ("add alpha=0 positional (default 1)", lambda: U.add(x, x, None, 0)),
     ]
     for label, fn in positional:
         rep.case(("positional", label))
